@@ -48,6 +48,7 @@ class Fixture(object):
         self.dispatch_count = {}   # seq -> times dispatched
         self.callbacks = callbacks  # every client registers a callback on its result right after issuing the request
         self.cb_log = []
+        self.waiting = {}          # thread name -> stack of AsyncResults whose wait() the thread is inside of
         fx = self
         # -- observed AsyncResult: reads/writes of the ready flag are scheduling points
         self._saved = []
@@ -62,6 +63,17 @@ class Fixture(object):
                     cur = s.current()
                     fx.created.setdefault(cur.name if cur else None, []).append(self)
                     base.__init__(self, *a, **k)
+
+                def wait(self):
+                    # which result a thread is waiting for right now: the innermost wait() it is in (with replies that carry
+                    # references a dispatch waits for an INSPECT round trip of its own)
+                    cur = s.current()
+                    st = fx.waiting.setdefault(cur.name if cur else None, [])
+                    st.append(self)
+                    try:
+                        return base.wait(self)
+                    finally:
+                        st.pop()
 
                 def _get(self):
                     s.yield_op("ready?", self)
@@ -197,8 +209,11 @@ class Fixture(object):
         return False
 
     def sleeps_past_publication(self, name, r):
-        """is the result that thread `name` (blocked now) waits for already published?  Without nesting that is the result of its
-        current request r."""
+        """is the result that thread `name` (blocked now) waits for already published?  It is the innermost wait() the thread is
+        in; outside of any (results collected by other means) the result of its current request r."""
+        st = self.waiting.get(name)
+        if st and self.slot is not None:
+            return bool(self.slot.__get__(st[-1]))
         return self.is_ready(r)
 
     def owner(self, lock):
